@@ -117,6 +117,11 @@ Mixed == UNION {{InsertAt(s, x, p) : x \in Others, p \in 1..(Len(s) + 1)} : s \i
 Pool5 == <<IntV(1), IntV(2), Txt(<<97>>), Txt(<<65>>), Txt(<<99, 100>>), Bool(TRUE), Blank>>
 Arbitrary == UNION {[1..n -> {Pool5[i] : i \in 1..Len(Pool5)}] : n \in 1..3}
 Pool6 == {Txt(<<53>>), Txt(<<49, 48>>), Txt(<<98>>), IntV(7), Txt(<<97>>)}        \* "5" "10" "b" 7 "a"
+\* texts of every length 0..4 against criteria with adjacent wild cards
+WildTxts == {Txt(<<>>), Txt(<<97>>), Txt(<<97, 98>>), Txt(<<97, 98, 99>>), Txt(<<97, 98, 99, 100>>), Txt(<<98, 97>>), IntV(7)}
+WildVecs == UNION {[1..n -> WildTxts] : n \in 1..2} \cup {<<Txt(<<>>), Txt(<<97>>), Txt(<<97, 98>>), Txt(<<97, 98, 99>>), Txt(<<97, 98, 99, 100>>)>>}
+WildKeys == {Txt(<<97, 63, 63>>), Txt(<<63, 63>>), Txt(<<63, 42>>), Txt(<<42, 63>>), Txt(<<97, 63>>), Txt(<<97, 42>>),
+             Txt(<<42, 42>>), Txt(<<97, 126, 63>>), Txt(<<63, 98, 63>>), Txt(<<97, 63, 63, 100>>), Txt(<<63, 63, 63>>)}
 NumTextVecs == {v \in UNION {[1..n -> Pool6] : n \in 2..3} :
                   \E i \in 1..Len(v) : v[i] \in {Txt(<<53>>), Txt(<<49, 48>>)}}
 
@@ -139,6 +144,7 @@ Init ==
      \* it is text, compared as text
      \/ /\ kind = "countif" /\ mode \in 1..6 /\ key \in {Txt(<<97>>), Txt(<<99>>), Txt(<<99, 42>>)}
         /\ vec \in NumTextVecs
+     \/ /\ kind = "countif" /\ mode \in 1..2 /\ key \in WildKeys /\ vec \in WildVecs
 
 OpOf(m) == <<"=", "<>", "<", "<=", ">", ">=">>[m]
 
